@@ -149,6 +149,10 @@ class Program:
     """All parsed function texts + enum table + call resolution."""
 
     def __init__(self, mir_path, src_root, wanted):
+        # functions the dump prints without a module path (nested `fn` items, free functions with a crate-unique name) are
+        # always loaded: which of them a function under analysis calls depends on how the code is factored
+        w0 = wanted
+        wanted = (lambda n: w0(n) or re.fullmatch(r"\w+", n) is not None) if w0 is not None else None
         self.raw = P.parse_file(mir_path, wanted)
         # one-line constant items: `const NAME: u64 = const 123_u64;` (no module path in the dump)
         self.simple_consts = {}
@@ -397,6 +401,8 @@ class Interp:
     def operand(self, frame, op):
         if op[0] == "const":
             return self.const(op[1])
+        if op[0] == "fnitem":
+            return Agg("fnptr", op[1], [])
         v = self.read(frame, op[1])
         return v
 
@@ -408,6 +414,8 @@ class Interp:
             return deep_copy(v) if rv[1][0] == "copy" else v
         if k == "ref":
             return self.place_ref(frame, rv[1])
+        if k == "fnptr":
+            return Agg("fnptr", rv[1], [])
         if k == "binop":
             return self.binop(rv[1], self.operand(frame, rv[2]), self.operand(frame, rv[3]), fn, rv)
         if k == "unop":
@@ -574,6 +582,12 @@ class Interp:
             elif k == "call":
                 dest, callee, aops, targets = t[1], t[2], t[3], t[4]
                 args2 = [self.operand(frame, o) for o in aops]
+                mfp = re.fullmatch(r"(?:move|copy) (_\d+)", callee)
+                if mfp:                                   # call through a function pointer held in a local
+                    fp = frame[mfp.group(1)]
+                    if not (isinstance(fp, Agg) and fp.kind == "fnptr"):
+                        raise Unsupported(f"indirect call through {fp!r}")
+                    callee = fp.name
                 res = self.dispatch(callee, args2)
                 if "return" not in targets:
                     raise Panic("diverging call returned: " + callee[:60])
@@ -597,7 +611,7 @@ class Interp:
             while hasattr(v, "get"):
                 v = v.get()
             if isinstance(v, Agg) and v.name:
-                callee = f"<{v.name} as {m.group(2)}>::{m.group(3)}"
+                callee = f"<{'fnptr' if v.kind == 'fnptr' else v.name} as {m.group(2)}>::{m.group(3)}"
                 for pat, fnm in self.models:
                     if pat.search(callee):
                         return fnm(self, callee, args)
@@ -607,8 +621,10 @@ class Interp:
         return self.call(target, args)
 
     def call_closure(self, clo, extra):
-        if not isinstance(clo, Agg) and hasattr(clo, "get"):
+        while not isinstance(clo, Agg) and hasattr(clo, "get"):
             clo = clo.get()
+        if isinstance(clo, Agg) and clo.kind == "fnptr":
+            return self.dispatch(clo.name, list(extra))
         name = self.prog.closures.get(clo.name)
         if name is None:
             raise Unsupported("closure body not found: " + clo.name)
@@ -641,6 +657,13 @@ def explore(interp, entry, make_args, max_paths=400):
             out = None
         except Unsupported as u:
             out = {"outcome": "unsupported", "msg": str(u)}
+        except (AttributeError, IndexError, KeyError, TypeError) as e:
+            # a value whose shape the interpreter / a std model / a stub does not cover (e.g. a field of a stubbed foreign
+            # struct that the stub does not carry): this path is outside the modelled fragment, not a verdict
+            import traceback
+            tb = traceback.extract_tb(e.__traceback__)
+            where = "; ".join(f"{os.path.basename(f.filename)}:{f.lineno} {f.name}" for f in tb[-2:])
+            out = {"outcome": "unsupported", "msg": f"value shape outside the models ({type(e).__name__}: {str(e)[:80]} at {where})"}
         for pnd in interp.pending:
             work.append(pnd)
         if out is not None:
